@@ -473,7 +473,8 @@ example :
 /-- what the driver would observe of the model's Load -/
 def obsOf (keys : List Bytes) (r : State × Stage) : LoadObs :=
   { failed := r.2 != .ok, values := r.1.values, bound := r.1.bound,
-    gets := keys.map fun k => (k, classify (Config.get r.1.values k)) }
+    gets := keys.map fun k => (k, classify (Config.get r.1.values k)),
+    typed := true }
 
 theorem lemma_truthy (v : Option CVal) : truthy v = (classify v == .leaf "b:true".toList) := by
   cases v with
@@ -576,6 +577,114 @@ theorem loadOK_model (schema : Bool) (nv : Nat) (st : State) (hd : DistinctKeys 
           | ok fresh =>
             simp only [Bool.false_eq_true, if_false]
             simp [lemma_valuesOK, get_spec]
+
+/-- the two outcomes of a Load, with the oracle's fault test: it fails exactly when a fault is
+    injected (state untouched), otherwise it installs the merge of its sources and the fresh struct -/
+theorem load_cases (schema : Bool) (nv : Nat) (st : State) (inp : LoadInput) :
+    (mustFail schema nv inp = true ∧ (load schema nv st inp).1 = st ∧ (load schema nv st inp).2 ≠ .ok) ∨
+    (mustFail schema nv inp = false ∧ (load schema nv st inp).2 = .ok ∧
+      (load schema nv st inp).1.values = mergeAll (okMaps inp) ∧
+      (load schema nv st inp).1.bound =
+        (match inp.bind with | some (.ok fresh) => fresh | _ => st.bound)) := by
+  have hsrc := loadSources_spec inp.srcs 0 []
+  have e1 : srcFails ⟨inp.srcs, none, []⟩ = srcFails inp := rfl
+  have e2 : okMaps ⟨inp.srcs, none, []⟩ = okMaps inp := rfl
+  rw [e1, e2] at hsrc
+  unfold mustFail
+  cases hsf : srcFails inp with
+  | true =>
+    obtain ⟨j, hj⟩ := hsrc.2 hsf
+    left
+    simp [load, hj]
+  | false =>
+    have hl := hsrc.1 hsf
+    simp only [List.reverse_nil, List.nil_append] at hl
+    simp only [Bool.false_or]
+    have hschema : schemaRejects (mergeAll (okMaps inp)) = keyTrue (okMaps inp) "schemafail".toList :=
+      lemma_keyTrue _ _
+    have hval : ∀ i, validatorRejects (mergeAll (okMaps inp)) i =
+        (keyTrue (okMaps inp) ("vfail".toList ++ (Nat.repr i).toList) ||
+         keyTrue (okMaps inp) ("vpanic".toList ++ (Nat.repr i).toList)) := by
+      intro i; simp only [validatorRejects, lemma_keyTrue]
+    have hfr : (firstRejecting (mergeAll (okMaps inp)) nv).isSome =
+        (List.range nv).any (fun i =>
+          keyTrue (okMaps inp) ("vfail".toList ++ (Nat.repr i).toList) ||
+          keyTrue (okMaps inp) ("vpanic".toList ++ (Nat.repr i).toList)) := by
+      unfold firstRejecting
+      have hfun : (fun i => keyTrue (okMaps inp) ("vfail".toList ++ (Nat.repr i).toList) ||
+          keyTrue (okMaps inp) ("vpanic".toList ++ (Nat.repr i).toList)) =
+          validatorRejects (mergeAll (okMaps inp)) := by
+        funext i; exact (hval i).symm
+      rw [hfun]
+      apply Bool.eq_iff_iff.mpr
+      rw [List.find?_isSome, List.any_eq_true]
+    simp only [load, hl]
+    rw [← hschema, ← hfr]
+    by_cases h1 : (schema && schemaRejects (mergeAll (okMaps inp))) = true
+    · left; simp [h1]
+    · have h1' : (schema && schemaRejects (mergeAll (okMaps inp))) = false := by simpa using h1
+      simp only [h1', Bool.false_or]
+      cases h2 : firstRejecting (mergeAll (okMaps inp)) nv with
+      | some i => left; simp
+      | none =>
+        simp only [Option.isSome_none, Bool.false_or]
+        cases hb : inp.bind with
+        | none => right; simp
+        | some b =>
+          cases b with
+          | reject => left; simp
+          | ok fresh => right; simp
+
+/-- **two racing Loads, model ⊨ oracle**: whichever locked region runs first, the final state
+    passes `raceOK` — values and bound struct stem from the same successful Load -/
+theorem raceOK_model (schema : Bool) (nv : Nat) (st : State) (hd : DistinctKeys st.values)
+    (hw : WFs st.values) (a b : LoadInput) (hsame : a.bind = none ↔ b.bind = none) :
+    let s1 := (load schema nv st a).1
+    let s2 := (load schema nv s1 b).1
+    raceOK schema nv st.values st.bound a b ((load schema nv st a).2 != .ok)
+      ((load schema nv s1 b).2 != .ok) s2.values s2.bound = true := by
+  intro s1 s2
+  unfold raceOK
+  rcases load_cases schema nv st a with ⟨hfa, hsa, hna⟩ | ⟨hfa, hoka, hva, hba⟩
+  · -- A fails: s1 = st
+    have hs1 : s1 = st := hsa
+    rcases load_cases schema nv s1 b with ⟨hfb, hsb, hnb⟩ | ⟨hfb, hokb, hvb, hbb⟩
+    · have hs2 : s2 = st := by show (load schema nv s1 b).1 = st; rw [hsb, hs1]
+      simp [hfa, hfb, hs2, kvsEq_refl st.values hd hw, hna, hnb]
+    · have hv2 : s2.values = mergeAll (okMaps b) := hvb
+      have hb2 : s2.bound = (match b.bind with | some (.ok fresh) => fresh | _ => s1.bound) := hbb
+      rw [hs1] at hb2
+      simp only [hfa, hfb, hv2, hb2, hokb, lemma_valuesOK]
+      cases hbind : b.bind with
+      | none => simp [hna]
+      | some x => cases x <;> simp [hna]
+  · rcases load_cases schema nv s1 b with ⟨hfb, hsb, hnb⟩ | ⟨hfb, hokb, hvb, hbb⟩
+    · -- only A succeeds: s2 = s1
+      have hs2 : s2 = s1 := hsb
+      have hv1 : s1.values = mergeAll (okMaps a) := hva
+      have hb1 : s1.bound = (match a.bind with | some (.ok fresh) => fresh | _ => st.bound) := hba
+      simp only [hfa, hfb, hs2, hv1, hb1, hoka, lemma_valuesOK]
+      cases hbind : a.bind with
+      | none => simp [hnb]
+      | some x => cases x <;> simp [hnb]
+    · -- both succeed, B last: the state is B's — unless B has no binding, in which case the struct
+      -- is the one A left, which is the fresh struct of A only if … B.bind = none means no struct at all
+      have hv2 : s2.values = mergeAll (okMaps b) := hvb
+      have hb2 : s2.bound = (match b.bind with | some (.ok fresh) => fresh | _ => s1.bound) := hbb
+      have hb1 : s1.bound = (match a.bind with | some (.ok fresh) => fresh | _ => st.bound) := hba
+      simp only [hfa, hfb, hv2, hb2, hoka, hokb, lemma_valuesOK]
+      cases hbindb : b.bind with
+      | none =>
+        -- the two Loads belong to one Config: either both have a binding or neither
+        have hbinda : a.bind = none := hsame.mpr hbindb
+        simp [hb1, hbinda]
+      | some x =>
+        cases x with
+        | reject =>
+          -- a rejected binding is a fault: contradicts `mustFail b = false`
+          exfalso
+          simp [mustFail, hbindb] at hfb
+        | ok fresh => simp
 
 /-- the invariant `loadOK_model` asks for holds in every reachable state -/
 theorem values_wellformed (schema : Bool) (nv : Nat) (st : State) (hd : DistinctKeys st.values)
